@@ -6,8 +6,10 @@ import (
 	"math/big"
 	"time"
 
+	"github.com/vipnode/vipnode/v2/ethnode"
 	"github.com/vipnode/vipnode/v2/internal/verifapi"
 	"github.com/vipnode/vipnode/v2/internal/verifmodels/sigs"
+	"github.com/vipnode/vipnode/v2/jsonrpc2"
 	"github.com/vipnode/vipnode/v2/pool/store"
 )
 
@@ -60,6 +62,7 @@ type verifSerialIn struct {
 	nonces  []int64
 	dt      int64
 	hostAck []int
+	same    bool // both calls come from the first client (its keep-alive and its own reconnect)
 }
 
 func verifSerialBuild(in *verifSerialIn, tag string) *verifSerialWorld {
@@ -84,6 +87,24 @@ func verifSerialBuild(in *verifSerialIn, tag string) *verifSerialWorld {
 	return w
 }
 
+// verifLedgerDigest: the balances and peer sets of a world.
+func verifLedgerDigest(w *verifSerialWorld) verifapi.Snap {
+	var d []interface{}
+	for _, id := range []string{verifapi.NodeID(0), verifapi.NodeID(1), verifapi.NodeID(2)} {
+		b, err := w.db.GetNodeBalance(store.NodeID(id))
+		d = append(d, err != nil, new(big.Int).Set(&b.Credit))
+		peers, _ := w.db.NodePeers(store.NodeID(id))
+		n := 0
+		for _, p := range peers {
+			if p.ID == store.NodeID(verifapi.NodeID(1)) || p.ID == store.NodeID(verifapi.NodeID(0)) || p.ID == store.NodeID(verifapi.NodeID(2)) {
+				n++
+			}
+		}
+		d = append(d, n, len(peers))
+	}
+	return verifapi.Snapshot(d)
+}
+
 // call k of agent a (0/1) with its pre-drawn nonce
 func (w *verifSerialWorld) call(kind int, agent int, in *verifSerialIn) error {
 	_, err := w.callReply(kind, agent, in)
@@ -103,6 +124,9 @@ func verifUpdateDigest(resp *UpdateResponse, err error) verifapi.Snap {
 // callReply is call, also returning a digest of the reply the caller sees.
 func (w *verifSerialWorld) callReply(kind int, agent int, in *verifSerialIn) (verifapi.Snap, error) {
 	id := []string{verifapi.NodeID(0), verifapi.NodeID(2)}[agent]
+	if in.same {
+		id = verifapi.NodeID(0)
+	}
 	nonce := in.nonces[agent]
 	ctx := context.Background()
 	switch kind {
@@ -124,7 +148,8 @@ func (w *verifSerialWorld) callReply(kind int, agent int, in *verifSerialIn) (ve
 		resp, err := w.p.Update(ctx, sigs.SignFor(hid, "vipnode_update", nonce, req), hid, nonce, req)
 		return verifUpdateDigest(resp, err), err
 	default: // reconnect as a client
-		_, err := VerifConnect(w.p, &VerifHost{Name: "c"}, id, false, "")
+		req := ConnectRequest{NodeInfo: ethnode.UserAgent{Kind: ethnode.Geth}}
+		_, err := w.p.Connect(jsonrpc2.VerifCtxWithService(ctx, &VerifHost{Name: "c"}), sigs.SignFor(id, "vipnode_connect", nonce, req), id, nonce, req)
 		return verifapi.Snapshot(err != nil), err
 	}
 }
@@ -140,6 +165,10 @@ func VerifC10Serial() {
 	dt := verifapi.Dur("dt")
 	verifapi.Assume(dt > 0 && dt < 100000000000)
 	k0, k1 := verifapi.Choose("call0", 2), verifapi.Choose("call1", 3)
+	if verifapi.Param("sameclient", 0) == 1 {
+		// one client's keep-alive (or peer request) racing its own reconnect
+		in.same, k1 = true, 3
+	}
 	conc := verifSerialBuild(in, "x")
 	ab := verifSerialBuild(in, "y")
 	ba := verifSerialBuild(in, "z")
@@ -170,6 +199,24 @@ func VerifC10Serial() {
 	}
 	if e2 != nil {
 		verifapi.Observe("conc-error-b", e2.Error())
+	}
+	if in.same {
+		// what C10 speaks of: balances, peer sets, nonce decisions (the refusals compared above) - not the
+		// other fields of the node record, which a reconnect and a keep-alive of the same node both rewrite.
+		// A further keep-alive, later, shows what the race left behind for billing.
+		verifapi.SetNow(t0.Add(dt).Add(45000000000))
+		in.nonces = []int64{now + 45000000001, 0}
+		for _, w := range []*verifSerialWorld{conc, ab, ba} {
+			w.db.UpdateNodePeers(store.NodeID(verifapi.NodeID(1)), nil, 0) // the host checks in
+			if _, err := w.callReply(0, 0, in); err != nil {
+				verifapi.Unreachable("c10.serial.followup")
+				return
+			}
+		}
+		verifapi.Reach("c10.serial")
+		got := verifLedgerDigest(conc)
+		verifapi.Assert(verifapi.Same(got, verifLedgerDigest(ab)) || verifapi.Same(got, verifLedgerDigest(ba)), "c10.balances-and-peer-sets-equal-a-serial-order")
+		return
 	}
 	verifapi.Reach("c10.serial")
 	got := verifapi.Snapshot(conc.db)
